@@ -54,10 +54,14 @@ type vfScenario struct {
 	SNodes   []string               `json:"snodes"` // nodes implemented as streamable lambdas
 	Delay    map[string]int         `json:"delay"`  // node -> completion rank (engine-level C03): larger finishes later
 	MaxCalls int                    `json:"maxcalls"`
+	Post     bool                   `json:"post"` // stateful graphs: also install state post-handlers
+	HMod     bool                   `json:"hmod"` // state handlers modify the value they pass on (pre adds key "pre", post adds key "q<node>")
+	SMod     int                    `json:"smod"` // k > 0: the k-th resume call passes a state modifier that adds 100 to the counter
 }
 
 type vfState struct {
 	Trail   []string
+	Count   int // number of critical sections performed on this state (read, yield, write back: lost updates show)
 	Saved   map[string]any
 	Pending map[string]bool
 }
@@ -257,6 +261,7 @@ func (r *vfRun) nodeLambda(prefix string, sc *vfScenario, name string) *Lambda {
 		if sc.State {
 			// read the state and write the exec line inside the state lock: log order = lock order
 			err := ProcessState[*vfState](ctx, func(_ context.Context, st *vfState) error {
+				r.cs(st, prefix, "body", name)
 				r.rec.log(map[string]any{"ev": ev, "p": prefix, "n": name, "i": in, "st": append([]string{}, st.Trail...)})
 				if isRerun && !abort {
 					delete(st.Pending, name)
@@ -290,7 +295,7 @@ func (r *vfRun) nodeLambda(prefix string, sc *vfScenario, name string) *Lambda {
 			case "err":
 				return nil, fmt.Errorf("wrapped: %w", &vfErrWrap{Node: path, cause: vfSentinel})
 			case "panic":
-				panic("verif injected panic at " + path)
+				panic("verif injected panic at " + r.sc.ID + "::" + path)
 			case "cancel":
 				if r.cancel != nil {
 					r.cancel()
@@ -320,14 +325,48 @@ type vfErrWrap struct {
 func (e *vfErrWrap) Error() string { return "verif injected failure at " + e.Node }
 func (e *vfErrWrap) Unwrap() error { return e.cause }
 
+// one critical section on the state: read-modify-write of the counter with a yield in between, logged inside the lock
+func (r *vfRun) cs(st *vfState, prefix, kind, name string) {
+	seq := st.Count
+	runtime.Gosched()
+	time.Sleep(15 * time.Microsecond)
+	st.Count = seq + 1
+	r.rec.log(map[string]any{"ev": "cs", "p": prefix, "k": kind, "n": name, "seq": seq})
+}
+
+func (r *vfRun) postHandler(prefix string, sc *vfScenario, name string) StatePostHandler[map[string]any, *vfState] {
+	return func(ctx context.Context, out map[string]any, st *vfState) (map[string]any, error) {
+		r.cs(st, prefix, "post", name)
+		if sc.HMod {
+			o2 := map[string]any{}
+			for k, v := range out {
+				o2[k] = v
+			}
+			o2["q"+name] = map[string]any{"n": "post", "i": map[string]any{}}
+			return o2, nil
+		}
+		return out, nil
+	}
+}
+
 func (r *vfRun) preHandler(prefix string, sc *vfScenario, name string) StatePreHandler[map[string]any, *vfState] {
 	isRerun := vfIn(sc.Rerun, name)
 	return func(ctx context.Context, in map[string]any, st *vfState) (map[string]any, error) {
 		if isRerun && st.Pending[name] && len(in) == 0 {
 			in, _ = st.Saved[name].(map[string]any) // rebuild the input of the aborted attempt from state
+			r.cs(st, prefix, "pre", name)
 			r.rec.log(map[string]any{"ev": "pre", "p": prefix, "n": name, "rebuilt": true})
 			return in, nil
 		}
+		if sc.HMod {
+			i2 := map[string]any{}
+			for k, v := range in {
+				i2[k] = v
+			}
+			i2["pre"] = map[string]any{"n": "pre", "i": map[string]any{}}
+			in = i2
+		}
+		r.cs(st, prefix, "pre", name)
 		st.Trail = append(st.Trail, name)
 		if isRerun {
 			if st.Saved == nil {
@@ -417,6 +456,9 @@ func (r *vfRun) nodeOpts(prefix string, sc *vfScenario, name string) []GraphAddN
 	var opts []GraphAddNodeOpt
 	if sc.State {
 		opts = append(opts, WithStatePreHandler(r.preHandler(prefix, sc, name)))
+		if sc.Post {
+			opts = append(opts, WithStatePostHandler(r.postHandler(prefix, sc, name)))
+		}
 	}
 	if sub, ok := sc.Sub[name]; ok {
 		opts = append(opts, WithGraphCompileOptions(r.compileOpts(sub, nil)...))
@@ -581,9 +623,13 @@ func vfInfo(info *InterruptInfo) map[string]any {
 	if s, ok := info.State.(*vfState); ok && s != nil {
 		st = append(st, s.Trail...)
 		has = true
+		out["cnt"] = s.Count
 	}
 	out["st"] = st
 	out["hasst"] = has
+	if _, ok := out["cnt"]; !ok {
+		out["cnt"] = 0
+	}
 	return out
 }
 
@@ -692,10 +738,20 @@ func (r *vfRun) runScenario() {
 	}
 	for k := 0; k < maxCalls; k++ {
 		paradigm := calls[k%len(calls)]
-		if k > 0 {
-			rec.log(map[string]any{"ev": "resume", "call": paradigm})
-		}
 		var opts []Option
+		if k > 0 {
+			mod := 0
+			if sc.SMod == k && sc.State {
+				mod = 100
+				opts = append(opts, WithStateModifier(func(ctx context.Context, path NodePath, state any) error {
+					if s, ok := state.(*vfState); ok && len(path.GetPath()) == 0 {
+						s.Count += 100
+					}
+					return nil
+				}))
+			}
+			rec.log(map[string]any{"ev": "resume", "call": paradigm, "mod": mod})
+		}
 		if !sc.NoID {
 			opts = append(opts, WithCheckPointID("cp-"+sc.ID))
 		}
@@ -789,7 +845,7 @@ func vfCaseLine(sc *vfScenario) map[string]any {
 	}
 	return map[string]any{"ev": "case", "id": sc.ID, "mode": sc.Mode, "nodes": vfL(sc.Nodes), "edges": edges, "branches": brs,
 		"max": sc.Max, "before": vfL(sc.Before), "after": vfL(sc.After), "rerun": vfL(sc.Rerun), "state": sc.State,
-		"fail": fails, "noid": sc.NoID, "subs": subs, "calls": vfL(sc.Calls)}
+		"fail": fails, "noid": sc.NoID, "subs": subs, "calls": vfL(sc.Calls), "post": sc.Post, "hmod": sc.HMod}
 }
 
 var ioEOF = func() error {
